@@ -1,19 +1,42 @@
 package smt
-import ("testing";"math/big")
-func TestBasic(t *testing.T){
- c:=NewCtx(); s,err:=NewSolver(5000,"z3","-in"); if err!=nil{t.Fatal(err)}
- defer s.Close()
- s.Reset(c)
- x:=c.Var("x",SInt); y:=c.Var("y",SReal); st:=c.Var("s",SStr)
- s.Push()
- s.Assert(c.Lt(c.Int(3),x)); s.Assert(c.Eq(y,c.Mul(c.Rat(big.NewRat(1,3)),c.ToReal(x))))
- s.Assert(c.Eq(c.App("runes",SInt,st),x))
- if r:=s.Check(); r!=Sat {t.Fatal(r,s.LastError)}
- m,err:=s.GetValues([]*Term{x,y,st,c.App("runes",SInt,st)}); if err!=nil{t.Fatal(err)}
- t.Log(m[x],m[y],m[st])
- if r:=s.CheckWith(c.Lt(x,c.Int(2))); r!=Unsat {t.Fatal(r)}
- s.Pop()
- // defined terms survive pop?
- if r:=s.CheckWith(c.Lt(c.Int(3),x), c.Lt(x,c.Int(2))); r!=Unsat {t.Fatal(r, s.LastError)}
- if r:=s.CheckWith(c.Lt(c.Int(3),x)); r!=Sat {t.Fatal(r, s.LastError)}
+
+import (
+	"math/big"
+	"testing"
+)
+
+func TestBasic(t *testing.T) {
+	c := NewCtx()
+	s, err := NewSolver(5000, "z3", "-in")
+	if err != nil {
+		t.Fatal(err)
+	}
+	defer s.Close()
+	s.Reset(c)
+	x := c.Var("x", SInt)
+	y := c.Var("y", SReal)
+	st := c.Var("s", SStr)
+	s.Push()
+	s.Assert(c.Lt(c.Int(3), x))
+	s.Assert(c.Eq(y, c.Mul(c.Rat(big.NewRat(1, 3)), c.ToReal(x))))
+	s.Assert(c.Eq(c.App("runes", SInt, st), x))
+	if r := s.Check(); r != Sat {
+		t.Fatal(r, s.LastError)
+	}
+	m, err := s.GetValues([]*Term{x, y, st, c.App("runes", SInt, st)})
+	if err != nil {
+		t.Fatal(err)
+	}
+	t.Log(m[x], m[y], m[st])
+	if r := s.CheckWith(c.Lt(x, c.Int(2))); r != Unsat {
+		t.Fatal(r)
+	}
+	s.Pop()
+	// defined terms survive pop?
+	if r := s.CheckWith(c.Lt(c.Int(3), x), c.Lt(x, c.Int(2))); r != Unsat {
+		t.Fatal(r, s.LastError)
+	}
+	if r := s.CheckWith(c.Lt(c.Int(3), x)); r != Sat {
+		t.Fatal(r, s.LastError)
+	}
 }
